@@ -314,6 +314,11 @@ func cmdRender(args []string) {
 				pstate := pick(r, []promise.State{promise.Pending, promise.Resolved, promise.Rejected, promise.Canceled, promise.Timedout})
 				stub.reply = func(q *t_api.Request) (*t_api.Response, error) {
 					if st >= 50000 {
+						// platform-level outcomes arrive as errors, with or without an underlying cause (the api's own
+						// refusals - shutting down, submission queue full - carry none)
+						if resume {
+							return nil, t_api.NewError(st, nil)
+						}
 						return nil, t_api.NewError(st, errors.New("injected"))
 					}
 					return shapedResponse(q.Kind, st, shape, resume, pstate), nil
